@@ -9,7 +9,10 @@
 (*   QueryStart r, q                                                         *)
 (*   QueryEnd   r, q, res ("ok" | "cancelled" | "panic"), h                  *)
 (*   Drop       r             (stamped before the snapshot is dropped)       *)
-(*   ApplyBegin c, touch      (stamped before apply_change is called)        *)
+(*   ApplyBegin c, touch      (stamped before apply_change is called; touch = *)
+(*              the writes the Change carries in queue order: 0 = roots /     *)
+(*              package graph write, -f = an intermediate text of file f,     *)
+(*              f = the text of file f in version c)                          *)
 (*   ApplyEnd   c, ms         (stamped after it returned)                    *)
 (*   end        (appended by the driver: everything must be quiescent)       *)
 (* A trace is accepted iff it is the projection of a behaviour of Host on    *)
@@ -61,7 +64,7 @@ RefHash(v, q) == Rec[base].refs[v + 1][q]
 
 TReset == /\ IsEv("reset") /\ Quiescent               \* the previous run ended with everything dropped / returned
           /\ ver' = 0 /\ inputs' = [f \in Files |-> 0] /\ inputsAt' = <<[f \in Files |-> 0]>>
-          /\ pendingWrite' = FALSE /\ wpc' = "idle" /\ todo' = <<>> /\ chg' = 0
+          /\ pendingWrite' = FALSE /\ wpc' = "idle" /\ todo' = <<>> /\ batch' = <<>> /\ chg' = 0
           /\ rpc' = [r \in Readers |-> "idle"] /\ snapVer' = [r \in Readers |-> 0]
           /\ acc' = [r \in Readers |-> Unread] /\ tick' = [r \in Readers |-> FALSE]
           /\ nq' = [r \in Readers |-> 0] /\ result' = [r \in Readers |-> NoResult]
@@ -93,9 +96,9 @@ TDrop == /\ IsEv("Drop") /\ Ev.r \in Readers
          /\ UNCHANGED base /\ Consume
 
 TApplyBegin == /\ IsEv("ApplyBegin")
-               /\ ApplyCall
+               /\ WellFormedTodo(Ev.touch)             \* the last content queued for a file is its text in version c
+               /\ ApplyCallWith(<<0>> \o Ev.touch)     \* request_cancellation, then the Change's writes in queue order
                /\ chg' = Ev.c
-               /\ todo' = <<0>> \o Ev.touch
                /\ UNCHANGED base /\ Consume
 
 TApplyEnd == /\ IsEv("ApplyEnd")
